@@ -132,23 +132,7 @@ func runC05(w *World, r *Report) {
 	// ---------------------------------------------------------------- extent
 	// list decoders advance by the size the decoded element reports; the encoder must have produced exactly
 	// that many bytes for it (size function ≡ bytes produced, as symbolic terms)
-	for _, k := range w.KindsL {
-		if k.Marshal == nil || k.Unmarshal == nil || k.Len == nil || strings.HasPrefix(k.Name, "protocol.") {
-			continue
-		}
-		pos := "-"
-		if fi := w.FuncOf(k.Marshal); fi != nil {
-			pos = w.Pos(fi.Decl.Pos())
-		}
-		sv := w.compareSize(k)
-		if sv.Verdict == VOK {
-			r.OK("extent", k.Name, "", pos, sv.Note, sv.Symbolic)
-		} else {
-			r.Fail(sv.Verdict, "extent", k.Name, "", pos, "the size the element reports is not the number of bytes its encoder produces, so a list walker that advances by it loses the following elements: "+sv.Diag)
-		}
-	}
-
-	builtRule(w, r, "extent", func(k *Kind) bool { return k.Unmarshal != nil && !strings.HasPrefix(k.Name, "protocol.") })
+	extentRule(w, r, "extent")
 	// ---------------------------------------------------------------- trailing
 	trailingRule(w, r)
 	// a declared length that differs from the bytes produced is re-read by the decoder as the element's extent:
@@ -580,6 +564,61 @@ func mirrorKind(w *World, r *Report, k *Kind, efi, dfi *FuncInfo) {
 			}
 		}
 		r.OK("mirror", k.Name, inst, pos, fmt.Sprintf("offset %v, width %v on both sides", wm.off, wm.w), wm.off.Symbolic() || len(used) > 0)
+	}
+	// ---- a part the encoder always writes is filled by the decoder on every accepting path: a read that sits
+	// under a condition which an accepting return after it does not carry is skipped on that path, and a
+	// receiver that was decoded into before keeps the part's old contents (they are then encoded again)
+	{
+		skipDone := map[string]bool{}
+		for _, rm := range R {
+			if rm.local || rm.field == "" || isPad(rm.field) || rm.loop || rm.guard == "" || strings.HasSuffix(rm.field, "[*]") || skipDone[rm.field] {
+				continue
+			}
+			ws := writesOf(rm.field)
+			if len(ws) == 0 {
+				continue
+			}
+			always := true
+			for _, wm := range ws {
+				if wm.guard != "" || wm.loop {
+					always = false
+				}
+			}
+			if !always {
+				continue
+			}
+			// another read of the same field that is not under the condition (an else arm) fills it there
+			alts := 0
+			for _, o := range R {
+				if o != rm && !o.local && o.field == rm.field && o.guard != rm.guard {
+					alts++
+				}
+			}
+			if alts > 0 || storedElsewhere(ds, rm.field, rm.guard) {
+				continue
+			}
+			rc := conjunctsOf(rm.guard)
+			for _, rt := range ds.Rets {
+				if rt.IsErr || rt.Pos < rm.pos {
+					continue
+				}
+				have := map[string]bool{}
+				for _, c := range conjunctsOf(rt.Guard) {
+					have[strings.TrimSpace(c)] = true
+				}
+				missing := ""
+				for _, c := range rc {
+					if c = strings.TrimSpace(c); c != "" && !have[c] {
+						missing = c
+					}
+				}
+				if missing != "" {
+					skipDone[rm.field] = true
+					r.Fail(VViolation, "mirror", k.Name, "skipfill:"+rm.field, w.Pos(rm.pos), fmt.Sprintf("the encoder always writes %s, but the decoder fills it only when %s; the accepting return at %s is reached without that: decoding into a value that was used before leaves the old %s in place, and it is encoded again", rm.field, missing, w.Pos(rt.Pos), rm.field))
+					break
+				}
+			}
+		}
 	}
 	// ---- decoder → encoder
 	for _, rm := range R {
@@ -2035,4 +2074,35 @@ func tailGuardRule(w *World, r *Report, rule string, inScope func(k *Kind) bool)
 			}
 		}
 	}
+}
+
+// extentRule: list decoders advance by the size the decoded element reports; the encoder must have produced
+// exactly that many bytes for it (size function ≡ bytes produced, as symbolic terms).
+func extentRule(w *World, r *Report, rule string) {
+	for _, k := range w.KindsL {
+		if k.Marshal == nil || k.Unmarshal == nil || k.Len == nil || strings.HasPrefix(k.Name, "protocol.") {
+			continue
+		}
+		pos := "-"
+		if fi := w.FuncOf(k.Marshal); fi != nil {
+			pos = w.Pos(fi.Decl.Pos())
+		}
+		sv := w.compareSize(k)
+		if sv.Verdict == VOK {
+			r.OK(rule, k.Name, "", pos, sv.Note, sv.Symbolic)
+		} else {
+			r.Fail(sv.Verdict, rule, k.Name, "", pos, "the size the element reports is not the number of bytes its encoder produces, so a list walker that advances by it loses the following elements: "+sv.Diag)
+		}
+	}
+	builtRule(w, r, rule, func(k *Kind) bool { return k.Unmarshal != nil && !strings.HasPrefix(k.Name, "protocol.") })
+}
+
+// storedElsewhere: the decoder assigns the field (a reset, a default) under another path condition than guard.
+func storedElsewhere(ds *FuncSummary, field, guard string) bool {
+	for _, st := range ds.Stores {
+		if strings.TrimSuffix(st.Path, "[]") == field && st.Guard != guard {
+			return true
+		}
+	}
+	return false
 }
